@@ -8,6 +8,7 @@ import (
 	"math"
 	"reflect"
 	"strings"
+	"sync"
 
 	"gorgonia.org/tensor"
 )
@@ -62,6 +63,27 @@ func backingOf(dt tensor.Dtype, n int, f func(i int) float64) any {
 	return s.Interface()
 }
 
+// immortal interns s in a table that lives as long as the process. gorgonia allocates every
+// tensor's memory as []byte, which the Go collector does not scan: the string headers of a String
+// tensor (every clone, every broadcast copy) are invisible to it, so the bytes of a heap-allocated
+// string held only by tensors can be freed and the process then dies in the collector with "found
+// pointer to free object" once the dangling header is copied back into scanned memory. Strings
+// that are never freed cannot dangle.
+var (
+	immortalMu sync.Mutex
+	immortals  = map[string]string{}
+)
+
+func immortal(s string) string {
+	immortalMu.Lock()
+	defer immortalMu.Unlock()
+	if k, ok := immortals[s]; ok {
+		return k
+	}
+	immortals[s] = s
+	return s
+}
+
 func setNum(v reflect.Value, x float64) {
 	switch v.Kind() {
 	case reflect.Float32, reflect.Float64:
@@ -75,7 +97,7 @@ func setNum(v reflect.Value, x float64) {
 	case reflect.Complex64, reflect.Complex128:
 		v.SetComplex(complex(x, 0))
 	case reflect.String:
-		v.SetString(fmt.Sprint(x))
+		v.SetString(immortal(fmt.Sprint(x)))
 	default:
 		panic("setNum: " + v.Kind().String())
 	}
